@@ -127,6 +127,9 @@ type sim struct {
 	epochV  int64
 	orc     *oracle
 	caseNum int
+
+	fetchProbe       func() // oracle hook: runs while the DNSKEY query is served
+	lastRevokedDelta int64  // increments of the "revoked" lifecycle counter in the last run
 }
 
 var (
@@ -443,6 +446,9 @@ func (s *sim) run(sp *runSpec) string {
 		sc.answer = buildAnswer(sp.fetch, sp.signers, sp.bad)
 	}
 	sc.hook = func() {
+		if s.fetchProbe != nil {
+			s.fetchProbe()
+		}
 		if sp.fTombWr {
 			plantDir(s.tombPath())
 		}
@@ -455,6 +461,7 @@ func (s *sim) run(sp *runSpec) string {
 	resolver.VerifC09AutoTA(s.r)
 	after := resolver.VerifC09RefreshCounters()
 	cur.Store(nil)
+	s.lastRevokedDelta = after[6] - before[6]
 
 	// remove the planted obstacles: a path that still carries one saw no
 	// replacement, so the previous content is what is on disk.
@@ -584,6 +591,7 @@ func exec(op string) vlib.Res {
 			if err := os.WriteFile(S.statePath(), []byte("\x07not a gob stream"), 0o600); err != nil {
 				panic(err)
 			}
+			S.orc.stateBad = true
 		default:
 			return vlib.Res{Impl: "bad-op"}
 		}
